@@ -334,3 +334,11 @@ PROPS['C04']['technique'] = 'symbolic execution of rustc MIR with unwind edges, 
 
 for tier in ('quick', 'thorough'):
     PROPS['C04']['mir'][tier][-1]['scenarios'] += ['iter.clone@ind']
+
+# C17: the deserialising half also through engine M (GAVisitor::visit_seq over a SeqAccess stub with its documented contract)
+PROPS['C17']['mir'] = {'quick': [mrun(['serde.visit_seq'], nmax=3), {'scenarios': ['serde.visit_seq@ind'], 'nmax': 3, 'timeout': 1800, 'soft_inconclusive': True}],
+                       'thorough': [mrun(['serde.visit_seq'], nmax=6), {'scenarios': ['serde.visit_seq@ind'], 'nmax': 3, 'timeout': 1800, 'soft_inconclusive': True}]}
+PROPS['C17']['technique'] = 'bounded model checking with Kani/CBMC (scripted SeqAccess, recording Serializer) + symbolic execution of rustc MIR of GAVisitor::visit_seq with z3: the source is a nondeterministic stub (any hint at every call, any element count, an error or a panic at every call); unrolled for N <= 3/6 and, with the fill loop summarised by an auto-checked loop invariant, for all N'
+PROPS['C17']['bounds'] += ' M: visit_seq for N <= 3 (thorough 6) unrolled and ALL N < 2^63 by loop-invariant induction; element count any (unrolled: <= N + 2), every size_hint answer arbitrary (None or any usize, independently per call), element error or panic at every call of the source and of the error constructor.'
+PROPS['C17']['assumptions'] += ['M stub: SeqAccess::size_hint returns None or any usize, except Some(0) while elements remain (the property\'s exclusion); next_element returns Ok(Some(fresh element)) while elements remain, Ok(None) after, Err or panics at any call; de::Error::invalid_length returns an opaque error or panics']
+PROPS['C17']['functions'] += ['IntrusiveArrayBuilder::{new,iter_position,finish,array_assume_init,drop}']
